@@ -1398,6 +1398,24 @@ fn run_scale_inner(c: &ScaleCase) -> Result<CompFeats, String> {
     macro_rules! body {
         ($cache:expr, $aw:ident) => {{
             let cache = $cache;
+            // wait() may legitimately fail while the insert buffer is full: retried for a while; a
+            // wait() that keeps failing means the processor is gone
+            macro_rules! settle {
+                () => {{
+                    let t0 = std::time::Instant::now();
+                    loop {
+                        match $aw!(cache.wait()) {
+                            Ok(()) => break,
+                            Err(e) => {
+                                if t0.elapsed() > Duration::from_secs(20) {
+                                    return Err(format!("[scale_liveness] {:?}: wait() kept failing for 20 s: {} (the background processor is gone)", c, e));
+                                }
+                                std::thread::sleep(Duration::from_millis(2));
+                            }
+                        }
+                    }
+                }};
+            }
             let mut accepted: Vec<u64> = Vec::with_capacity(total as usize);
             for k in 0..n {
                 let r = if c.ttl_s == 0 { $aw!(cache.try_insert(k, k, 1)) } else { $aw!(cache.try_insert_with_ttl(k, k, 1, ttl)) };
@@ -1407,10 +1425,10 @@ fn run_scale_inner(c: &ScaleCase) -> Result<CompFeats, String> {
                     Err(e) => return Err(format!("HARNESS scale: insert failed: {}", e)),
                 }
                 if k % 8192 == 8191 {
-                    $aw!(cache.wait()).map_err(|e| format!("HARNESS scale: wait failed: {}", e))?;
+                    settle!();
                 }
             }
-            $aw!(cache.wait()).map_err(|e| format!("HARNESS scale: wait failed: {}", e))?;
+            settle!();
             // far below capacity: everything accepted is resident, nothing has been handed back
             if cache.len() != accepted.len() {
                 return Err(format!("[scale_map] {:?}: {} inserts accepted into a cache with room for all of them, len() = {}", c, accepted.len(), cache.len()));
@@ -1425,7 +1443,7 @@ fn run_scale_inner(c: &ScaleCase) -> Result<CompFeats, String> {
                     Ok(false) => {}
                     Err(e) => return Err(format!("HARNESS scale: insert failed: {}", e)),
                 }
-                $aw!(cache.wait()).map_err(|e| format!("HARNESS scale: wait failed: {}", e))?;
+                settle!();
             }
             // conservation after long use: resident or handed to exactly one callback
             let log = cb.0.lock().clone();
